@@ -57,6 +57,24 @@ fn programs(thorough: bool) -> Vec<(String, Vec<Stmt>)> {
     out.push(("seg-two".into(), vec![seg("a", hex(0x1000), None), seg("b", hex(0x2000), None), Stmt::Segment { name: string("a"), block: Some(body("la")) }, Stmt::Segment { name: string("b"), block: Some(body("lb")) }]));
     out.push(("seg-two-relocated".into(), vec![seg("a", hex(0x1000), None), seg("b", hex(0x2000), Some(hex(0x9000))), Stmt::Segment { name: string("a"), block: Some(body("la")) }, Stmt::Segment { name: string("b"), block: Some(body("lb")) }]));
     out.push(("seg-overlapping-targets".into(), vec![seg("a", hex(0x1000), None), seg("b", hex(0x3000), Some(hex(0x1000))), Stmt::Segment { name: string("a"), block: Some(body("la")) }, Stmt::Segment { name: string("b"), block: Some(body("lb")) }]));
+    // a macro whose body reports an error in one intermediate pass only (its branch target still has the address of
+    // the pass before the 50 jumps in front of it took their size): the program is valid
+    {
+        let mut p = vec![Stmt::MacroDef {
+            name: "mt".into(),
+            params: vec![],
+            body: vec![ins("bne", Form::Plain, id("mskip")), nop(), label("mskip"), imp("inx")],
+        }];
+        for _ in 0..50 {
+            p.push(ins("jmp", Form::Plain, id("end")));
+        }
+        p.push(Stmt::MacroCall { name: "mt".into(), args: vec![] });
+        p.push(nop());
+        p.push(ins("lda", Form::Imm, num(1)));
+        p.push(label("end"));
+        p.push(imp("rts"));
+        out.push(("macro-transient-error".into(), p));
+    }
     // emission order differs from address order: the segment used first lies higher; the program counter moves back
     out.push(("seg-two-descending".into(), vec![seg("a", hex(0x2000), None), seg("b", hex(0x1000), None), Stmt::Segment { name: string("a"), block: Some(body("la")) }, Stmt::Segment { name: string("b"), block: Some(body("lb")) }, Stmt::Segment { name: string("a"), block: Some(vec![nop()]) }]));
     out.push(("pcset-back".into(), vec![Stmt::PcSet(hex(0x1100)), nop(), ins("lda", Form::Imm, num(1)), Stmt::PcSet(hex(0x1000)), imp("inx"), label("l"), ins("jmp", Form::Plain, id("l")), Stmt::PcSet(hex(0x1080)), imp("rts")]));
